@@ -544,11 +544,17 @@ func run(c *vf.Ctx) {
 		events = append(events, map[string]any{"ev": "reset", "h": h, "binding": "FrameV1.Unseal/signed"})
 		traces++
 		bld := frame.NewFrameBuilder()
-		baseT := time.Now().Round(time.Millisecond)
+		// stamps are the SENDER's clock: in half of the histories it is not the receiver's - some frames are stamped
+		// hours or days ahead of (or behind) the receiver's time; the order rule is about the stamps alone
+		baseT := time.Now().Round(time.Millisecond).Add(-72 * time.Hour)
+		skew := k%2 == 1
 		mts := []frame.MessageType{frame.RouterPing, frame.RouterHopPing, frame.RouterHopPingDeprecated}
 		n := 10 + rng.Intn(60)
 		for i := 0; i < n; i++ {
-			t := 1 + rng.Intn(40)
+			t := 259200000 + 1 + rng.Intn(40) // 72 h in ms: "now" at the receiver
+			if skew {
+				t += []int{0, 0, 90000000, 172800000, 864000000, -90000000, -250000000}[rng.Intn(7)] // +25 h, +48 h, +10 d, -25 h, -69 h
+			}
 			f, err := bld.NewFrameV1(pa.ID.IP, pb.ID.IP, mts[rng.Intn(3)], nil, []byte("signed"), nil)
 			if err != nil {
 				panic(err)
